@@ -320,3 +320,22 @@ class Every:
 
     def __repr__(self) -> str:
         return str(bool(self))
+
+
+def foreign(chk, fn, *args) -> None:
+    """run a clause family that another property owns and that is re-filed here: when its anchors have moved (the owner reports that as
+    its own analysis error) this property is judged by its own clauses only"""
+    from ..model import AnalysisError
+    try:
+        fn(*args)
+    except AnalysisError as ex:
+        chk.note(f're-filed clauses of another property could not be evaluated and were skipped: {ex}')
+        base = chk
+        for a in args:
+            if isinstance(a, Refile):
+                base = a.chk
+                while isinstance(base, Refile):
+                    base = base.chk
+                if not hasattr(base, 'skipped_rules'):
+                    base.skipped_rules = set()
+                base.skipped_rules.update(a.mapping.values())
